@@ -56,7 +56,7 @@ PROPS = {
     "C14": e2e(
         "each run = one seeded client program over {Send, CloseRequest, Receive, CloseResponse, cancel} (split sender/receiver tasks for bidi) "
         "against a seeded handler program {receive i, send j, drain or not, return nil|error} x protocols x HTTP versions x windows down to 1 byte "
-        "x slow-point sets at the library's 17 yield points (none, every single point, every pair, random subsets), plus calls refused by a handler-side "
+        "x slow-point sets at the library's 18 yield points (none, every single point, every pair, random subsets), plus calls refused by a handler-side "
         "interceptor before the request is read (Sends still blocked); checked: bounded termination "
         "(hang = no enabled operation for 120 s of fake time), end-of-request visibility, Send-after-finish errors, outcome equality, sticky Receive "
         "errors, goroutine leaks (stack scan of the bubble) and response-body Close; distinct = distinct scheduler-log hash among runs with >= 2 candidates",
